@@ -84,6 +84,7 @@ Inductive opcode :=
 | OTag (tag : nat) | OMakeTuple | OUnpackTuple
 | OIadd                             (* arithmetic.int.iadd<6> *)
 | OGate (name : string)             (* a quantum gate: every qubit in comes out again, same ports *)
+| OCall (name : string) (nout : nat) (* call of a helper function of the X programs (see sem_call) *)
 | OOther (name : string) (nout : nat). (* anything else: not interpreted *)
 
 Definition uidx (n : nat) (u : Z) : option nat :=
@@ -186,6 +187,23 @@ Definition sem_unpack_tuple (args : list val) : outcome (list val) :=
 Definition sem_iadd (args : list val) : outcome (list val) :=
   match args with [VInt a; VInt b] => Ok [VInt (wrap_s (a + b))] | _ => Stuck "iadd operands" end.
 
+(** Calls: only the two helper functions of the correspondence programs are interpreted.
+    `bump(ctr: array[int, 1]) -> int` is the INDEX ORACLE: it returns the counter and advances it, so
+    successive calls return successive different values (outputs: result, then the counter array
+    handed back); `poke(a: array[int, 1])` adds 1000 to the only cell of a leaf array. *)
+Definition sem_call (name : string) (args : list val) : outcome (list val) :=
+  if String.eqb name "bump" then
+    match args with
+    | [VArr [Some (VInt v)]] => Ok [VInt v; VArr [Some (VInt (wrap_s (v + 1)))]]
+    | _ => Stuck "bump operands"
+    end
+  else if String.eqb name "poke" then
+    match args with
+    | [VArr [Some (VInt v)]] => Ok [VArr [Some (VInt (wrap_s (v + 1000)))]]
+    | _ => Stuck "poke operands"
+    end
+  else Stuck name.
+
 Definition op_sem (op : opcode) (args : list val) : outcome (list val) :=
   match op with
   | OItoUsize => sem_itousize args
@@ -210,6 +228,7 @@ Definition op_sem (op : opcode) (args : list val) : outcome (list val) :=
   | OUnpackTuple => sem_unpack_tuple args
   | OIadd => sem_iadd args
   | OGate _ => Ok args
+  | OCall name _ => sem_call name args
   | OOther name _ => Stuck name
   end.
 
@@ -321,6 +340,65 @@ Definition seq_use2 (n : nat) (g : string) : list instr :=
     IOp OItoUsize [2%nat]; IOp (OReturn n) [12%nat; 13%nat; 10%nat] ].
 Definition outs_use2 : list nat := [14%nat].
 
+(** Nested subscripts `qs[i][j]` lent to a call `f(qs[i][j])` (ExprCompiler.visit_PlaceNode +
+    _update_inout_ports).  What the compiler emits is NOT "borrow outer, borrow inner, call, return
+    inner, return outer": the inner array is handed back to the outer one as soon as the leaf has
+    been taken out of it, and taken out again for the write-back:
+      pre :  borrow outer at i, borrow inner at j, return (inner with cell j lent) to outer at i
+      call
+      post:  borrow outer at i, return the leaf to inner at j, return inner to outer at i.
+    Every conversion reads the SAME index register [ri] / [rj]: each index expression is evaluated
+    exactly once, before the first borrow.  [a] = register of the outer array, [b] = number of
+    registers defined so far.   pre defines b..b+7 (leaf = b+5, outer array = b+7);
+    post defines b..b+6 (outer array = b+6). *)
+Definition seq_nested_pre (n m a ri rj b : nat) : list instr :=
+  [ IOp OItoUsize [ri]; IOp (OBorrow n) [a; b]; IOp OItoUsize [rj]; IOp (OBorrow m) [(b + 2)%nat; (b + 3)%nat];
+    IOp OItoUsize [ri]; IOp (OReturn n) [(b + 1)%nat; (b + 6)%nat; (b + 4)%nat] ].
+Definition seq_nested_post (n m a ri rj e b : nat) : list instr :=
+  [ IOp OItoUsize [ri]; IOp (OBorrow n) [a; b]; IOp OItoUsize [rj]; IOp (OReturn m) [(b + 2)%nat; (b + 3)%nat; e];
+    IOp OItoUsize [ri]; IOp (OReturn n) [(b + 1)%nat; (b + 5)%nat; (b + 4)%nat] ].
+(** [f] = the op applied to the leaf (a gate, or the call of `poke`): one input, one output *)
+Definition seq_lend_nested_at (n m : nat) (f : opcode) (a ri rj b : nat) : list instr :=
+  seq_nested_pre n m a ri rj b ++ [IOp f [(b + 5)%nat]] ++ seq_nested_post n m (b + 7) ri rj (b + 8) (b + 9).
+(** `f(qs[i][j])`: inputs 0 = outer array, 1 = i, 2 = j; result array = register 18 *)
+Definition seq_lend_nested (n m : nat) (f : opcode) : list instr := seq_lend_nested_at n m f 0 1 2 3.
+Definition outs_lend_nested : list nat := [18%nat].
+(** the two halves on their own (inputs 0 = array, 1 = i, 2 = j [, 3 = leaf to give back]) *)
+Definition seq_lend_nested_pre (n m : nat) : list instr := seq_nested_pre n m 0 1 2 3.
+Definition outs_lend_nested_pre : list nat := [8%nat; 10%nat].
+Definition seq_lend_nested_post (n m : nat) : list instr := seq_nested_post n m 0 1 2 3 4.
+Definition outs_lend_nested_post : list nat := [10%nat].
+(** `f(qs[bump(ctr)][c])`: inputs 0 = outer array, 1 = counter.  regs: 2 = const c, 3 = index
+    returned by the oracle, 4 = counter handed back; ONE call of the oracle.  outs: array 20, counter 4 *)
+Definition seq_lend_nested_oracle (n m : nat) (f : opcode) (c : Z) : list instr :=
+  [ IOp (OConst (CInt c)) []; IOp (OCall "bump" 2) [1%nat] ] ++ seq_lend_nested_at n m f 0 3 2 5.
+Definition outs_lend_nested_oracle : list nat := [20%nat; 4%nat].
+(** `g(qs[bump(ctr)][c0], qs[bump(ctr)][c1])`: both leaves lent at once; TWO oracle calls.
+    outs: array 39, counter 15 *)
+Definition seq_lend2_nested_oracle (n m : nat) (g : string) (c0 c1 : Z) : list instr :=
+  [ IOp (OConst (CInt c0)) []; IOp (OCall "bump" 2) [1%nat] ] ++ seq_nested_pre n m 0 3 2 5
+  ++ [ IOp (OConst (CInt c1)) []; IOp (OCall "bump" 2) [4%nat] ] ++ seq_nested_pre n m 12 14 13 16
+  ++ [ IOp (OGate g) [10%nat; 21%nat] ]
+  ++ seq_nested_post n m 23 3 2 24 26 ++ seq_nested_post n m 32 14 13 25 33.
+Definition outs_lend2_nested_oracle : list nat := [39%nat; 15%nat].
+(** `g(qs[i][j][k])`, three levels: inputs 0 = array, 1 = i, 2 = j, 3 = k *)
+Definition seq_lend_nested3 (n m p : nat) (g : string) : list instr :=
+  seq_nested_pre n m 0 1 2 4 ++ [ IOp OItoUsize [3%nat]; IOp (OBorrow p) [9%nat; 12%nat] ]
+  ++ seq_nested_post n m 11 1 2 13 15 ++ [ IOp (OGate g) [14%nat] ]
+  ++ seq_nested_pre n m 21 1 2 23 ++ [ IOp OItoUsize [3%nat]; IOp (OReturn p) [28%nat; 31%nat; 22%nat] ]
+  ++ seq_nested_post n m 30 1 2 32 33.
+Definition outs_lend_nested3 : list nat := [39%nat].
+(** `xs[i][j]` read / `xs[i][j] = v` write with copyable leaves: borrow outer, get / set on the
+    inner array, return the inner array to the same outer index.  inputs 0 = array, 1 = i, 2 = j [, 3 = v] *)
+Definition seq_get_nested (n m : nat) : list instr :=
+  [ IOp OItoUsize [1%nat]; IOp (OBorrow n) [0%nat; 3%nat]; IOp OItoUsize [2%nat]; IOp (OGet m) [5%nat; 6%nat];
+    unwrap 7 msg_index_oob 0 1; IOp OItoUsize [1%nat]; IOp (OReturn n) [4%nat; 10%nat; 8%nat] ].
+Definition outs_get_nested : list nat := [9%nat; 11%nat].
+Definition seq_set_nested (n m : nat) : list instr :=
+  [ IOp OItoUsize [1%nat]; IOp (OBorrow n) [0%nat; 4%nat]; IOp OItoUsize [2%nat]; IOp (OSet m) [6%nat; 7%nat; 3%nat];
+    unwrap 8 msg_index_oob 2 2; IOp OItoUsize [1%nat]; IOp (OReturn n) [5%nat; 11%nat; 10%nat] ].
+Definition outs_set_nested : list nat := [12%nat].
+
 (** CopyInoutCompiler on a borrow array: one `clone`.  input 0 = array; regs 1, 2 = the two arrays *)
 Definition seq_copy (n : nat) : list instr := [ IOp (OClone n) [0%nat] ].
 Definition outs_copy : list nat := [1%nat; 2%nat].
@@ -429,6 +507,7 @@ Definition op_tokens (op : opcode) : list string :=
   | OTag t => ["tag"; nat_s t] | OMakeTuple => ["make_tuple"] | OUnpackTuple => ["unpack_tuple"]
   | OIadd => ["iadd"]
   | OGate g => ["gate"; g]
+  | OCall f k => ["call"; f; nat_s k]
   | OOther s k => ["other"; s; nat_s k]
   end.
 Fixpoint instr_tokens (i : instr) : list string :=
